@@ -75,6 +75,36 @@ def fresh(text, args, hashseed):
         shutil.rmtree(d, ignore_errors=True)
 
 
+def sibling(d, rng):
+    """a different deck with the SAME cell, surface, universe, TR and material numbers as `d` (expressions enlarged or
+    reduced, parameters shifted, densities changed): whatever a conversion remembers under those numbers is stale
+    for `d`"""
+    import copy
+    e = copy.deepcopy(d)
+    for c in e.cells:
+        if c.hints.get('raw') is not None:
+            continue
+        leaves = D.expr_leaves(c.expr)
+        m = rng.random()
+        if m < 0.45 and leaves:
+            extra = rng.choice(leaves)
+            c.expr = ('i', c.expr, extra) if rng.random() < 0.5 else ('u', ('i', c.expr, extra), ('i', c.expr, rng.choice(leaves)))
+        elif m < 0.65 and leaves:
+            c.expr = rng.choice(leaves)
+        if c.rho is not None and rng.random() < 0.5:
+            c.rho = rng.choice(['-3.25', '0.0625', '-11.5'])
+    for s_ in e.surfs:
+        if s_.mn in ('px', 'py', 'pz', 'so', 'cx', 'cy', 'cz', 's', 'c/x', 'c/y', 'c/z') and rng.random() < 0.5:
+            s_.ps = [p_ + 0.25 if i_ == len(s_.ps) - 1 else p_ for i_, p_ in enumerate(s_.ps)]
+    for num, (m_, sp) in list(e.trs.items()):
+        if rng.random() < 0.5 and 'raw' not in sp:
+            e.trs[num] = (D.Motion([x + 0.5 for x in m_.o], list(m_.b)), sp)
+            for s_ in e.surfs:
+                if s_.trnum == num:
+                    s_.tr = e.trs[num][0]
+    return e
+
+
 def volstr_case(seed, rng, ctx):
     """VolumeT4.__str__ vs the Lean model, the sets built in a shuffled insertion order"""
     from t4_geom_convert.Kernel.Volume.VolumeT4 import VolumeT4
@@ -138,6 +168,13 @@ def run_case(stream, seed, ctx, params):
     inp = os.path.join(impl.scratch_dir(), 'deckB.imcnp')
     on_disk = hashlib.sha1(open(inp, 'rb').read()).hexdigest()
     others = []
+    # first a sibling of B: same numbers everywhere, different contents
+    try:
+        st = D.render_deck(sibling(d, rng), D.Layout(rng))
+        others.append(st)
+        impl.convert(st, args, name='sibling')
+    except Exception:  # noqa  (a sibling that cannot be rendered is simply not used)
+        pass
     for k in range(rng.randint(2, 4)):
         od = gen_deck(rng)
         # reuse cell / surface numbers of B on purpose (fresh generators start numbering alike)
